@@ -94,6 +94,14 @@ func (m FileMatcher) Match(file *ast.File, d data.Data) (data.Data, bool) {
 			return false
 		}
 
+		// Comments are never matched. A group may also have lost all
+		// its comments to an earlier change of the same run while a
+		// Doc or Comment field still points to it, and the region of
+		// an empty group cannot be computed.
+		if _, ok := n.(*ast.CommentGroup); ok {
+			return false
+		}
+
 		d, ok := m.NodeMatcher.Match(reflect.ValueOf(n), d, nodeRegion(n))
 		if !ok {
 			return true
